@@ -4,6 +4,7 @@ CONSTANTS
   DescUnits = {"Seconds"}
   HistVals = {"v100", "v1e6", "v2e31", "vmax", "vhuge"}
   HistCounts = {1, 2, 5000}
+  GaugeOps = {"set"}
 SPECIFICATION Spec
 INVARIANT Emit
 INVARIANT UnitInv
